@@ -9,6 +9,9 @@ mod grid;
 mod scc;
 mod cost;
 mod units;
+mod load;
+mod app;
+mod batch;
 
 fn main() {
     let args: Vec<String> = std::env::args().collect();
@@ -24,6 +27,8 @@ fn main() {
         "scc" => scc::main(rest),
         "cost" => cost::main(rest),
         "units" => units::main(rest),
+        "load" => load::main(rest),
+        "batch" => batch::main(rest),
         other => {
             eprintln!("unknown subcommand {}", other);
             2
